@@ -3,6 +3,8 @@ import SfntV.Model.OtlClassDef
 import SfntV.Model.OtlLookupList
 import SfntV.Model.OtlGsub
 import SfntV.Model.OtlGpos
+import SfntV.Model.OtlFeatureList
+import SfntV.Model.OtlGdef
 
 namespace SfntV.Drive.Otl
 open SfntV SfntV.Otl
@@ -175,12 +177,31 @@ def parseSeqs (s : String) : Option (List (List Nat)) :=
 def showSeqs (l : List (List Nat)) : String :=
   "|".intercalate (l.map fun r => if r.isEmpty then "-" else ".".intercalate (r.map toString))
 
+/-- ligature sets: `out<in.in,out<|-|...` -/
+def parseLigSets (s : String) : Option (List (List Gsub.Lig)) :=
+  if s.isEmpty then some [] else
+  (s.splitOn "|").mapM fun t =>
+    if t == "-" then some [] else
+    (t.splitOn ",").mapM fun q =>
+      match q.splitOn "<" with
+      | [o, ins] => do
+        let out ← o.toNat?
+        let inp ← if ins.isEmpty then some [] else (ins.splitOn ".").mapM String.toNat?
+        pure ⟨inp, out⟩
+      | _ => none
+
+def showLigSets (l : List (List Gsub.Lig)) : String :=
+  "|".intercalate (l.map fun set =>
+    if set.isEmpty then "-" else
+    ",".intercalate (set.map fun g => s!"{g.out}<" ++ ".".intercalate (g.inp.map toString)))
+
 def sortPairs (l : List (Nat × Nat)) : List (Nat × Nat) := l.mergeSort fun a b => a.1 ≤ b.1
 
 def showSub : Gsub.Sub → String
   | .s11 gs d => s!"1.1;cov={natsToString (sortDedup gs)};delta={d}"
   | .s12 cov subs => s!"1.2;cov={showPairs (sortPairs cov)};subs={natsToString subs}"
   | .seq tp cov seqs => s!"{tp}.1;cov={showPairs (sortPairs cov)};seqs={showSeqs seqs}"
+  | .s41 cov repl => s!"4.1;cov={showPairs (sortPairs cov)};ligs={showLigSets repl}"
 
 def encLen (b : Outcome Bytes) (n : Outcome Nat) : String :=
   match b, n with
@@ -199,6 +220,10 @@ def gsubEncode (st : String) (fs : List (String × String)) : String :=
     else if st == "12" then
       match (getField fs "subs").bind parseNatList with
       | some subs => encLen (Gsub.encode12 cov subs) (Gsub.encodeLen12 cov subs)
+      | none => "bad-case"
+    else if st == "41" then
+      match (getField fs "ligs").bind parseLigSets with
+      | some repl => encLen (Gsub.encode41 cov repl) (Gsub.encodeLen41 cov repl)
       | none => "bad-case"
     else
       match (getField fs "seqs").bind parseSeqs with
@@ -300,6 +325,57 @@ def gposEncode (st : String) (fs : List (String × String)) : String :=
         | some vrs => encLen (Gpos.encode12 cov vrs) (Gpos.encodeLen12 cov vrs)
         | none => "bad-case"
 
+/-! feature lists: `taghex:l.l.l|taghex:-` -/
+
+def parseFL (s : String) : Option (List FL.Feature) :=
+  if s.isEmpty then some [] else
+  (s.splitOn "|").mapM fun t =>
+    match t.splitOn ":" with
+    | [tg, ls] => do
+      let tag ← fromHex tg
+      let lookups ← if ls == "-" then some [] else (ls.splitOn ".").mapM String.toNat?
+      pure ⟨tag, lookups⟩
+    | _ => none
+
+def showFL (fl : List FL.Feature) : String :=
+  "|".intercalate (fl.map fun f =>
+    toHex f.tag ++ ":" ++ (if f.lookups.isEmpty then "-" else ".".intercalate (f.lookups.map toString)))
+
+/-! GDEF: `gc=<class runs>|empty|-`, `mac=…`, `sets=-|none|<runs>;<runs>;…` (`e` = empty set) -/
+
+@[noinline] def classPart (runs : List (Nat × Nat × Nat)) : Gdef.ClassPart :=
+  let arr := classArray runs
+  let lo := runs.foldl (fun a r => min a r.1) 0xFFFF
+  let hi := runs.foldl (fun a r => max a r.2.1) 0
+  let f := fun g => arr.getD g 0
+  ⟨ClassDef.appendF runs.isEmpty f lo hi, ClassDef.appendLenF runs.isEmpty f lo hi⟩
+
+def parseClassField (s : Option String) : Option (Option Gdef.ClassPart) :=
+  match s with
+  | none => none
+  | some "-" => some none
+  | some "empty" => some (some (classPart []))
+  | some t => (parseClassRuns t).map fun r => some (classPart r)
+
+def parseSetsField (s : Option String) : Option (Option (List (List Nat))) :=
+  match s with
+  | none => none
+  | some "-" => some none
+  | some "none" => some (some [])
+  | some t => ((t.splitOn ";").mapM fun q => if q == "e" then some [] else parseRuns q).map some
+
+def showSets (ss : List (List Nat)) : String :=
+  String.join (ss.map fun s => "{" ++ natsToString (sortDedup s) ++ "}")
+
+def showGdef (r : Gdef.Read) : String :=
+  let cls := fun (o : Option (List (Nat × Nat))) => match o with
+    | some es => showClassRuns (entriesArray es)
+    | none => "-"
+  let sets := match r.sets with
+    | some ss => showSets ss
+    | none => "-"
+  s!"gc={cls r.gc};mac={cls r.mac};sets={sets}"
+
 def prefixes : List String := ["otl."]
 
 def handle (op : String) (fs : List (String × String)) : String :=
@@ -382,6 +458,29 @@ def handle (op : String) (fs : List (String × String)) : String :=
   else if op == "otl.gsub.prop" then
     match getField fs "st" with
     | some st => gsubProp st fs
+    | none => "bad-case"
+  else if op == "otl.ll.read" then
+    match (getField fs "data").bind fromHex, (getField fs "ext").bind String.toNat? with
+    | some d, some ext =>
+      showOutcome (fun ls => ";".intercalate (ls.map fun (l : LL.ReadLookup) =>
+        s!"{l.type}/{l.flags}/{l.mfs}/" ++ "|".intercalate (l.subPos.map toString))) (LL.readLL d ext)
+    | _, _ => "bad-case"
+  else if op == "otl.gdef.encode" then
+    match parseClassField (getField fs "gc"), parseClassField (getField fs "mac"),
+        parseSetsField (getField fs "sets") with
+    | some gc, some mac, some sets => showOutcome showBytes (Gdef.encode gc mac sets)
+    | _, _, _ => "bad-case"
+  else if op == "otl.gdef.read" then
+    match (getField fs "data").bind fromHex with
+    | some d => showOutcome showGdef (Gdef.read d)
+    | none => "bad-case"
+  else if op == "otl.fl.encode" then
+    match (getField fs "fl").bind parseFL with
+    | some fl => showOutcome showBytes (FL.encode fl)
+    | none => "bad-case"
+  else if op == "otl.fl.read" then
+    match (getField fs "data").bind fromHex with
+    | some d => showOutcome showFL (FL.read d)
     | none => "bad-case"
   else if op == "otl.gpos.encode" then
     match getField fs "st" with
